@@ -2,7 +2,7 @@ import sys, time
 from hlib import *
 import explore, props
 import mirdump; mirdump.dump("liwe"); prog = program()
-hz = getattr(props, sys.argv[1])(prog, sys.argv[2] if len(sys.argv)>2 else 'quick')
+hz = eval('props.' + sys.argv[1])(prog, sys.argv[2] if len(sys.argv)>2 else 'quick')
 S = explore.explore(hz, workers=16, time_limit=int(sys.argv[3]) if len(sys.argv)>3 else 900)
 print('paths', S.paths, S.by_status, 'wall %.1f' % S.wall, 'steps', S.steps, 'queries', S.queries, 'solver_s %.1f' % S.solver_s, 'incomplete', S.incomplete)
 print('obligations', S.obligations, S.smt_obligations, 'covers', sorted(S.covers))
